@@ -73,6 +73,14 @@ def seedOf : SExp → Option (Option Bytes)
 
 def handleNcch (cmd : String) (args : List SExp) : String :=
   match cmd, args with
+  | "ncch-geom", [f, st, sd, asm, dv, bl] =>
+    -- the decidable hypothesis of the one-image theorem (C04_one_image): do the six classified regions stay apart?
+    match f.bytes?, st.nat?, seedOf sd, asm.nat?, dv.nat?, bl.bytes? with
+    | some file, some start, some seed, some a, some d, some blob =>
+      match ncchOpen file start seed (a == 1) (d == 1) blob with
+      | .ok s => if regionsApart s then "apart" else "overlap"
+      | .error e => "e:" ++ e.name
+    | _, _, _, _, _, _ => "bad-args"
   | "ncch-open", [f, st, sd, asm, dv, bl] =>
     match f.bytes?, st.nat?, seedOf sd, asm.nat?, dv.nat?, bl.bytes? with
     | some file, some start, some seed, some a, some d, some blob =>
